@@ -258,3 +258,16 @@ def single_knob_variant(cfg, rng):
     else:
         c[k] = [0.0] * (nh - 1) + [round_sig(abs(c['rc'][-1]) * rnd(rng, 0.05, 0.2))]
     return c
+
+
+def dphi_indep(q, f):
+    """d/dphi of a grid profile computed INDEPENDENTLY of the object's matrices: FFT derivative of the trigonometric interpolant
+    (period 2 pi / nfp).  For odd n this is exactly what the spectral differentiation matrix represents."""
+    n = q.nphi
+    kk = np.fft.fftfreq(n, 1.0 / n) * q.nfp
+    F = np.fft.fft(np.asarray(f, dtype=float) + np.zeros(n))
+    return np.fft.ifft(1j * kk * F).real
+
+
+def dvarphi_indep(q, f):
+    return dphi_indep(q, f) / q.d_varphi_d_phi
